@@ -18,6 +18,7 @@ import (
 //	empty       empty read without error (serial ports)
 //	eof N       deliver N bytes together with io.EOF (N may be 0)
 //	ioerr N     deliver N bytes together with an I/O error
+//	ioerr-timeout N  like ioerr, but the error is ErrIOTimeout
 //	cancel      call the cancel hook, then behave like timeout
 type Event struct {
 	Kind string `json:"k"`
@@ -26,6 +27,16 @@ type Event struct {
 
 // ErrIO is the injected I/O failure.
 var ErrIO = errors.New("xport: injected i/o error")
+
+type fatalTimeout struct{}
+
+func (fatalTimeout) Error() string   { return "connection timed out" }
+func (fatalTimeout) Timeout() bool   { return true }
+func (fatalTimeout) Temporary() bool { return false }
+
+// ErrIOTimeout is an injected fatal I/O failure whose type says Timeout() == true (like ETIMEDOUT) but which is NOT the
+// read-deadline expiry: errors.Is(ErrIOTimeout, os.ErrDeadlineExceeded) is false.
+var ErrIOTimeout error = &net.OpError{Op: "read", Net: "script", Err: fatalTimeout{}}
 
 // ErrWrite is the injected write failure.
 var ErrWrite = errors.New("xport: injected write error")
@@ -159,6 +170,10 @@ func (s *Script) read(p []byte) (int, error) {
 		n := s.take(p, ev.N)
 		pop()
 		return s.logRead(p, n, ErrIO)
+	case "ioerr-timeout":
+		n := s.take(p, ev.N)
+		pop()
+		return s.logRead(p, n, ErrIOTimeout)
 	case "cancel":
 		pop()
 		if s.OnCancel != nil {
